@@ -146,6 +146,7 @@ FgLines == <<
   If("linux", RM), If("windows", RM), Unless("linux", RM), Unless("windows", RM), If("unix", RM),
   If("exec:hcat", RM), If("exec:nosuchprog", RM), If("gc", RM), If("go1.18", RM), If("go1.999", RM),
   If("nosuchcond", RM), If("ctrue", RM), If("cfalse", RM), If("cerr", RM), Unless("cfalse", RM), Unless("nosuchcond", RM),
+  If("cvar", RM), Unless("cvar", RM),
   If("linux", If("windows", Ln("nosuchcmd", <<>>))), If("windows", If("nosuchcond", Ln("nosuchcmd", <<>>))),
   If("linux", Unless("windows", RM)), If("linux", If("nosuchcond", RM)),
   \* every polarity combination of two guards (a negated guard must not change how the next one is read)
